@@ -491,3 +491,370 @@ Proof.
   unfold s_dec_currency. rewrite msg_load_coins by exact Hg. cbn [bind].
   rewrite Hdec. reflexivity.
 Qed.
+
+(* ------------------------------------------------------------------ *)
+(* 4. CommonMsgInfo                                                    *)
+(* ------------------------------------------------------------------ *)
+
+Lemma msg_refs_bits b x b' : b_store_bits b x = Ok b' -> b_refs b' = b_refs b.
+Proof. intros H. apply store_bits_ext in H. destruct H as [_ H]. rewrite H. apply app_nil_r. Qed.
+
+Lemma msg_refs_uint b v w b' : b_store_uint b v w = Ok b' -> b_refs b' = b_refs b.
+Proof. intros H. apply store_uint_ext in H. destruct H as [_ H]. rewrite H. apply app_nil_r. Qed.
+
+Lemma msg_refs_var_uint b v k b' : b_store_var_uint b v k = Ok b' -> b_refs b' = b_refs b.
+Proof.
+  unfold b_store_var_uint. destruct (v =? 0); [apply msg_refs_uint|].
+  intros H. msg_inv H b1 H1. apply msg_refs_uint in H, H1. congruence.
+Qed.
+
+Lemma msg_refs_address b a b' : b_store_address b a = Ok b' -> b_refs b' = b_refs b.
+Proof. intros H. apply store_address_ext in H. destruct H as [_ H]. rewrite H. apply app_nil_r. Qed.
+
+Lemma msg_extra_refs ec ce : ser_extra ec = Ok ce -> crefs ce <= 1.
+Proof.
+  unfold ser_extra. intros H. msg_inv H kvl Hkvl. msg_inv H oc Hoc. msg_inv H b' Hb'.
+  apply msg_store_mref_empty in Hb'. subst b'. apply end_cell_ok in H. subst ce.
+  cbn [crefs b_refs]. pose proof (msg_olist_length oc). lia.
+Qed.
+
+Lemma msg_currency_refs g ec c : ser_currency g ec = Ok c -> crefs c <= 1.
+Proof.
+  unfold ser_currency. intros H. msg_inv H b1 H1. msg_inv H ce Hce. msg_inv H b2 H2.
+  apply end_cell_ok in H. subst c. unfold b_store_coins in H1. apply msg_refs_var_uint in H1.
+  apply msg_extra_refs in Hce.
+  destruct ce as [t bits refs]. apply store_cell_ext in H2. destruct H2 as [_ R2].
+  cbn [crefs b_refs] in *. rewrite R2, H1. cbn [b_empty b_refs app]. exact Hce.
+Qed.
+
+Ltac msg_refs_all :=
+  repeat match goal with
+  | H : b_store_uint _ _ _ = Ok _ |- _ => apply msg_refs_uint in H
+  | H : b_store_bit _ _ = Ok _ |- _ => apply msg_refs_bits in H
+  | H : b_store_address _ _ = Ok _ |- _ => apply msg_refs_address in H
+  | H : b_store_coins _ _ = Ok _ |- _ => apply msg_refs_var_uint in H
+  | H : b_store_cell _ (Cell _ _ _) = Ok _ |- _ => apply store_cell_ext in H; destruct H as [_ H]
+  end.
+
+Ltac msg_rw :=
+  repeat match goal with
+  | H : b_bits _ = _ |- _ => rewrite H; clear H
+  | H : b_refs _ = _ |- _ => rewrite H; clear H
+  end.
+
+Ltac msg_invs H := repeat (let b := fresh "b" in let Hb := fresh "Hb" in msg_inv H b Hb).
+
+Lemma msg_info_refs info ic : ser_info info = Ok ic ->
+  exists bits refs, ic = Cell ty_ordinary bits refs /\ (length refs <= 1)%nat /\ (s_depth ic < 1024)%N.
+Proof.
+  destruct info as [d b bd src dst g ec ihr fwd lt at_|src dst fee|src dst lt at_]; cbn [ser_info]; intros H.
+  - do 12 (let b := fresh "b" in let Hb := fresh "Hb" in msg_inv H b Hb).
+    pose proof (msg_end_depth _ _ H) as Hd. apply end_cell_ok in H.
+    match goal with Hc : ser_currency g ec = Ok ?vc |- _ =>
+      apply msg_currency_refs in Hc; destruct vc as [tc cb cr]; cbn [crefs] in Hc end.
+    eexists _, _. split; [exact H|]. split; [|exact Hd].
+    msg_refs_all. msg_rw. cbn [b_empty b_refs app]. lia.
+  - do 4 (let b := fresh "b" in let Hb := fresh "Hb" in msg_inv H b Hb).
+    pose proof (msg_end_depth _ _ H) as Hd. apply end_cell_ok in H.
+    eexists _, _. split; [exact H|]. split; [|exact Hd].
+    msg_refs_all. msg_rw. cbn [b_empty b_refs length]. lia.
+  - do 5 (let b := fresh "b" in let Hb := fresh "Hb" in msg_inv H b Hb).
+    pose proof (msg_end_depth _ _ H) as Hd. apply end_cell_ok in H.
+    eexists _, _. split; [exact H|]. split; [|exact Hd].
+    msg_refs_all. msg_rw. cbn [b_empty b_refs length]. lia.
+Qed.
+
+Ltac msg_exts :=
+  repeat match goal with
+  | H : b_store_uint _ _ _ = Ok _ |- _ => apply store_uint_ext in H; destruct H as [? ?]
+  | H : b_store_bit _ _ = Ok _ |- _ => apply store_bits_ext in H; destruct H as [? ?]
+  | H : b_store_address _ _ = Ok _ |- _ => apply store_address_ext in H; destruct H as [? ?]
+  | H : b_store_coins _ _ = Ok _ |- _ => apply msg_store_coins in H; [destruct H as [? ?]|assumption]
+  | H : b_store_cell _ (Cell _ _ _) = Ok _ |- _ => apply store_cell_ext in H; destruct H as [? ?]
+  | H : b_store_ref _ _ = Ok _ |- _ => apply store_ref_ext in H; destruct H as [? ?]
+  end.
+
+Lemma msg_info_roundtrip info t bits refs : info_ok info = true -> info_canon info = true ->
+  ser_info info = Ok (Cell t bits refs) ->
+  forall tb tr, s_dec_info (mkS (bits ++ tb) (refs ++ tr)) = Ok (info, mkS tb tr).
+Proof.
+  destruct info as [d b bd src dst g ec ihr fwd lt at_|src dst fee|src dst lt at_];
+    cbn [info_ok info_canon ser_info]; intros Hok Hcan H tb tr.
+  - apply andb_prop in Hok. destruct Hok as [Hok Hec].
+    apply andb_prop in Hok. destruct Hok as [Hok Hat2]. apply andb_prop in Hok. destruct Hok as [Hok Hat1].
+    apply andb_prop in Hok. destruct Hok as [Hok Hlt2]. apply andb_prop in Hok. destruct Hok as [Hok Hlt1].
+    apply andb_prop in Hok. destruct Hok as [Hok Hfwd]. apply andb_prop in Hok. destruct Hok as [Hok Hihr].
+    apply andb_prop in Hok. destruct Hok as [Hok Hg]. apply andb_prop in Hok. destruct Hok as [Hsrc Hdst].
+    assert (Hihr0 : 0 <= ihr) by (apply msg_coins_ok in Hihr; lia).
+    assert (Hfwd0 : 0 <= fwd) by (apply msg_coins_ok in Hfwd; lia).
+    do 12 (let b := fresh "b" in let Hb := fresh "Hb" in msg_inv H b Hb).
+    apply end_cell_ok in H. injection H as -> -> ->.
+    match goal with Hc : ser_currency g ec = Ok ?vc |- _ =>
+      destruct vc as [tc cb cr];
+      pose proof (fun tb tr => currency_roundtrip g ec _ tb tr Hg Hcan Hec Hc) as Hcur; cbv beta iota in Hcur;
+      clear Hc end.
+    msg_exts. msg_rw. cbn [b_empty b_bits b_refs app]. rewrite ?app_nil_r, <- !app_assoc, msg_enc1_0.
+    cbn [app]. unfold s_dec_info.
+    rewrite load_bit_app. cbn [bind negb].
+    rewrite load_bit_app. cbn [bind]. rewrite load_bit_app. cbn [bind]. rewrite load_bit_app. cbn [bind].
+    rewrite load_address_app by exact Hsrc. cbn [bind].
+    rewrite load_address_app by exact Hdst. cbn [bind].
+    rewrite Hcur. cbn [bind].
+    rewrite msg_load_coins by exact Hihr. cbn [bind].
+    rewrite msg_load_coins by exact Hfwd. cbn [bind].
+    rewrite (load_uint_app 64) by (try apply in_uint_iff; lia). cbn [bind].
+    rewrite (load_uint_app 32) by (try apply in_uint_iff; lia). cbn [bind].
+    reflexivity.
+  - apply andb_prop in Hok. destruct Hok as [Hok Hfee]. apply andb_prop in Hok. destruct Hok as [Hsrc Hdst].
+    assert (Hfee0 : 0 <= fee) by (apply msg_coins_ok in Hfee; lia).
+    do 4 (let b := fresh "b" in let Hb := fresh "Hb" in msg_inv H b Hb).
+    apply end_cell_ok in H. injection H as -> -> ->.
+    msg_exts. msg_rw. cbn [b_empty b_bits b_refs app]. rewrite <- !app_assoc, msg_enc2_2.
+    cbn [app]. unfold s_dec_info.
+    rewrite load_bit_app. cbn [bind negb]. rewrite load_bit_app. cbn [bind negb].
+    rewrite load_address_app by exact Hsrc. cbn [bind].
+    rewrite load_address_app by exact Hdst. cbn [bind].
+    rewrite msg_load_coins by exact Hfee. cbn [bind]. reflexivity.
+  - apply andb_prop in Hok. destruct Hok as [Hok Hat2]. apply andb_prop in Hok. destruct Hok as [Hok Hat1].
+    apply andb_prop in Hok. destruct Hok as [Hok Hlt2]. apply andb_prop in Hok. destruct Hok as [Hok Hlt1].
+    apply andb_prop in Hok. destruct Hok as [Hsrc Hdst].
+    do 5 (let b := fresh "b" in let Hb := fresh "Hb" in msg_inv H b Hb).
+    apply end_cell_ok in H. injection H as -> -> ->.
+    msg_exts. msg_rw. cbn [b_empty b_bits b_refs app]. rewrite <- !app_assoc, msg_enc2_3.
+    cbn [app]. unfold s_dec_info.
+    rewrite load_bit_app. cbn [bind negb]. rewrite load_bit_app. cbn [bind negb].
+    rewrite load_address_app by exact Hsrc. cbn [bind].
+    rewrite load_address_app by exact Hdst. cbn [bind].
+    rewrite (load_uint_app 64) by (try apply in_uint_iff; lia). cbn [bind].
+    rewrite (load_uint_app 32) by (try apply in_uint_iff; lia). cbn [bind].
+    reflexivity.
+Qed.
+
+(* ------------------------------------------------------------------ *)
+(* 5. Message: the two placement steps as separate functions           *)
+(* ------------------------------------------------------------------ *)
+
+Definition msg_init_part (b0 : builder) (init : option state_init) (body : cell) : result builder :=
+  match init with
+  | None => b_store_bit b0 false
+  | Some si =>
+      bind (b_store_bit b0 true) (fun b1 =>
+      bind (ser_state_init si) (fun ic' =>
+      let fits0 := (cbits ic' <=? avail_bits b1 - 2) && (crefs ic' <=? avail_refs b1) in
+      let bits_left := avail_bits b1 - 2 - cbits ic' in
+      let refs_left := avail_refs b1 - crefs ic' in
+      let fits := fits0 && ((1 <=? refs_left) || ((cbits body <=? bits_left - 1) && (crefs body <=? refs_left))) in
+      if fits then bind (b_store_bit b1 false) (fun b2 => b_store_cell b2 ic')
+      else bind (b_store_bit b1 true) (fun b2 => b_store_ref b2 ic')))
+  end.
+
+Definition msg_body_part (b3 : builder) (body : cell) : result builder :=
+  if (cbits body <=? avail_bits b3 - 1) && (crefs body <=? avail_refs b3)
+  then bind (b_store_bit b3 false) (fun b4 => b_store_cell b4 body)
+  else bind (b_store_bit b3 true) (fun b4 => b_store_ref b4 body).
+
+Lemma msg_ser_message_eq info init body :
+  ser_message info init body =
+  bind (ser_info info) (fun ic => bind (b_store_cell b_empty ic) (fun b0 =>
+  bind (msg_init_part b0 init body) (fun b3 => bind (msg_body_part b3 body) b_end_cell))).
+Proof. reflexivity. Qed.
+
+Definition msg_dec_body (info : msg_info) (init : option state_init) (s5 : slice)
+  : result (msg_info * option state_init * cell) :=
+  bind (s_load_bit s5) (fun '(body_ref, s6) =>
+  if body_ref then bind (s_load_ref s6) (fun '(b, _) => Ok (info, init, b))
+  else Ok (info, init, Cell ty_ordinary (s_bits s6) (s_refs s6))).
+
+Definition msg_dec_init {A} (K : option state_init * slice -> result A) (s1 : slice) : result A :=
+  bind (s_load_bit s1) (fun '(has_init, s2) =>
+  bind (if has_init then
+          bind (s_load_bit s2) (fun '(by_ref, s3) =>
+          if by_ref then
+            bind (s_load_ref s3) (fun '(ic, s4) =>
+            bind (s_dec_state_init (begin_parse ic)) (fun '(si, _) => Ok (Some si, s4)))
+          else rmap (fun '(si, s4) => (Some si, s4)) (s_dec_state_init s3))
+        else Ok (None, s2)) K).
+
+Lemma msg_dec_message_eq c :
+  s_dec_message c =
+  bind (s_dec_info (begin_parse c)) (fun '(info, s1) =>
+  msg_dec_init (fun '(init, s5) => msg_dec_body info init s5) s1).
+Proof. reflexivity. Qed.
+
+(* ---- decoding what the placement steps wrote ---- *)
+
+Lemma msg_init_part_dec b0 init body b3 :
+  match init with Some si => init_ok si = true | None => True end ->
+  msg_init_part b0 init body = Ok b3 ->
+  exists xb xr, ext b0 b3 xb xr /\
+    forall A (K : option state_init * slice -> result A) tb tr,
+      msg_dec_init K (mkS (xb ++ tb) (xr ++ tr)) = K (init, mkS tb tr).
+Proof.
+  intros Hok H. destruct init as [si|]; cbn [msg_init_part] in H.
+  - msg_inv H b1 H1. msg_inv H ic' Hic'. cbv zeta in H.
+    rewrite msg_ser_state_init_eq in Hic' by exact Hok. apply end_cell_ok in Hic'. cbn [b_bits b_refs] in Hic'.
+    apply store_bits_ext in H1. destruct H1 as [B1 R1].
+    match type of H with (if ?c then _ else _) = _ => destruct c end.
+    + msg_inv H b2 H2. apply store_bits_ext in H2. destruct H2 as [B2 R2].
+      rewrite Hic' in H. apply store_cell_ext in H. destruct H as [B3 R3].
+      exists ([true; false] ++ msg_si_bits si), (msg_si_refs si). split.
+      * split; [rewrite B3, B2, B1|rewrite R3, R2, R1]; rewrite ?app_nil_r, <- ?app_assoc; reflexivity.
+      * intros A K tb tr. unfold msg_dec_init. rewrite <- app_assoc. cbn [app].
+        rewrite load_bit_app. cbn [bind]. rewrite load_bit_app. cbn [bind].
+        rewrite msg_dec_state_init by exact Hok. reflexivity.
+    + msg_inv H b2 H2. apply store_bits_ext in H2. destruct H2 as [B2 R2].
+      apply store_ref_ext in H. destruct H as [B3 R3].
+      exists [true; true], [ic']. split.
+      * split; [rewrite B3, B2, B1|rewrite R3, R2, R1]; rewrite ?app_nil_r, <- ?app_assoc; reflexivity.
+      * intros A K tb tr. unfold msg_dec_init. cbn [app].
+        rewrite load_bit_app. cbn [bind]. rewrite load_bit_app. cbn [bind].
+        unfold s_load_ref. cbn [s_refs s_bits bind]. rewrite Hic'. cbn [begin_parse].
+        rewrite <- (app_nil_r (msg_si_bits si)), <- (app_nil_r (msg_si_refs si)).
+        rewrite msg_dec_state_init by exact Hok. reflexivity.
+  - apply store_bits_ext in H. destruct H as [B R].
+    exists [false], []. split; [split; assumption|].
+    intros A K tb tr. unfold msg_dec_init. cbn [app]. rewrite load_bit_app. reflexivity.
+Qed.
+
+Lemma msg_body_part_dec b3 body bX : cell_ok body = true -> msg_body_part b3 body = Ok bX ->
+  exists yb yr, ext b3 bX yb yr /\
+    forall info init, msg_dec_body info init (mkS yb yr) = Ok (info, init, body).
+Proof.
+  intros Hok H. unfold msg_body_part in H. destruct body as [ty bits refs].
+  unfold cell_ok in Hok. apply andb_prop in Hok. destruct Hok as [Hok _].
+  apply andb_prop in Hok. destruct Hok as [Hty _]. apply Z.eqb_eq in Hty. subst ty.
+  match type of H with (if ?c then _ else _) = _ => destruct c end.
+  - msg_inv H b4 H4. apply store_bits_ext in H4. destruct H4 as [B4 R4].
+    apply store_cell_ext in H. destruct H as [BX RX].
+    exists ([false] ++ bits), refs. split.
+    + split; [rewrite BX, B4|rewrite RX, R4]; rewrite ?app_nil_r, <- ?app_assoc; reflexivity.
+    + intros info init. unfold msg_dec_body. cbn [app]. rewrite load_bit_app. reflexivity.
+  - msg_inv H b4 H4. apply store_bits_ext in H4. destruct H4 as [B4 R4].
+    apply store_ref_ext in H. destruct H as [BX RX].
+    exists [true], [Cell ty_ordinary bits refs]. split.
+    + split; [rewrite BX, B4|rewrite RX, R4]; rewrite ?app_nil_r, <- ?app_assoc; reflexivity.
+    + intros info init. reflexivity.
+Qed.
+
+Lemma message_decodes : forall info init body c,
+  info_ok info = true -> info_canon info = true ->
+  match init with Some si => init_ok si = true | None => True end ->
+  cell_ok body = true ->
+  ser_message info init body = Ok c ->
+  s_dec_message c = Ok (info, init, body).
+Proof.
+  intros info init body c Hok Hcan Hinit Hbody H. rewrite msg_ser_message_eq in H.
+  msg_inv H ic Hic. msg_inv H b0 H0. msg_inv H b3 H3. msg_inv H bX HX.
+  apply end_cell_ok in H. subst c. destruct ic as [ti ib ir].
+  apply store_cell_ext in H0. destruct H0 as [B0 R0].
+  destruct (msg_init_part_dec _ _ _ _ Hinit H3) as (xb & xr & [B3 R3] & D3).
+  destruct (msg_body_part_dec _ _ _ Hbody HX) as (yb & yr & [BX RX] & DX).
+  rewrite msg_dec_message_eq. cbn [begin_parse].
+  rewrite BX, B3, B0, RX, R3, R0. cbn [b_empty b_bits b_refs app]. rewrite <- !app_assoc.
+  rewrite (msg_info_roundtrip info ti ib ir Hok Hcan Hic). cbn [bind].
+  rewrite D3. apply DX.
+Qed.
+
+(* ------------------------------------------------------------------ *)
+(* 6. Message: serialisation never runs out of room                    *)
+(* ------------------------------------------------------------------ *)
+
+Lemma msg_forall_le_weaken (l : list cell) a b : (a <= b)%N ->
+  Forall (fun r => (s_depth r <= a)%N) l -> Forall (fun r => (s_depth r <= b)%N) l.
+Proof. intros Hab H. eapply Forall_impl; [|exact H]. cbn beta. intros r Hr. lia. Qed.
+
+Lemma msg_olist_depth oc : opt_depth_ok oc = true -> Forall (fun r => (s_depth r <= 1021)%N) (msg_olist oc).
+Proof.
+  destruct oc as [c|]; cbn [opt_depth_ok msg_olist]; intros H; constructor; [lia|constructor].
+Qed.
+
+Lemma msg_si_refs_depth si : opt_depth_ok (si_code si) = true -> opt_depth_ok (si_data si) = true ->
+  opt_depth_ok (si_library si) = true -> Forall (fun r => (s_depth r <= 1021)%N) (msg_si_refs si).
+Proof.
+  intros H1 H2 H3. unfold msg_si_refs. apply Forall_app. split; [apply msg_olist_depth; exact H1|].
+  apply Forall_app. split; apply msg_olist_depth; assumption.
+Qed.
+
+(* what the body step needs from the builder left by the state-init step *)
+Definition msg_room (b3 : builder) (body : cell) : Prop :=
+  (length (b_bits b3) <= 1022)%nat /\ (length (b_refs b3) <= 4)%nat /\
+  Forall (fun r => (s_depth r <= 1022)%N) (b_refs b3) /\
+  ((length (b_refs b3) <= 3)%nat \/
+   (cbits body <=? avail_bits b3 - 1) && (crefs body <=? avail_refs b3) = true).
+
+Lemma msg_init_part_ok b0 init body :
+  (length (b_bits b0) <= 1020)%nat -> (length (b_refs b0) <= 1)%nat ->
+  Forall (fun r => (s_depth r <= 1022)%N) (b_refs b0) ->
+  match init with Some si => init_ok si = true /\ opt_depth_ok (si_code si) = true /\
+                             opt_depth_ok (si_data si) = true /\ opt_depth_ok (si_library si) = true
+                | None => True end ->
+  exists b3, msg_init_part b0 init body = Ok b3 /\ msg_room b3 body.
+Proof.
+  intros Hb Hr Hd Hinit. destruct init as [si|]; cbn [msg_init_part].
+  - destruct Hinit as (Hok & Hc & Hda & Hl).
+    pose proof (msg_si_refs_depth si Hc Hda Hl) as Hsd.
+    rewrite msg_S_bit by lia. cbn [bind].
+    rewrite msg_ser_state_init_eq by exact Hok.
+    rewrite msg_S_end by (cbn [b_refs]; eapply msg_forall_le_weaken; [|exact Hsd]; lia).
+    cbn [bind b_bits b_refs]. cbv zeta.
+    set (sb := msg_si_bits si) in *. set (sr := msg_si_refs si) in *.
+    match goal with |- context [if ?c then _ else _] => destruct c eqn:Efits end.
+    + unfold avail_bits, avail_refs, cbits, crefs in Efits. cbn [b_bits b_refs] in Efits.
+      rewrite app_length in Efits. cbn [length] in Efits.
+      rewrite msg_S_bit by (cbn [b_bits]; rewrite app_length; cbn [length]; lia). cbn [bind].
+      rewrite msg_S_cell by (cbn [b_bits b_refs]; rewrite ?app_length; cbn [length]; lia).
+      eexists. split; [reflexivity|]. unfold msg_room, avail_bits, avail_refs. cbn [b_bits b_refs].
+      rewrite !app_length. cbn [length].
+      split; [lia|]. split; [lia|]. split.
+      * apply Forall_app. split; [exact Hd|]. eapply msg_forall_le_weaken; [|exact Hsd]. lia.
+      * destruct body as [tb bb br]. cbn [cbits crefs] in *. lia.
+    + rewrite msg_S_bit by (cbn [b_bits]; rewrite app_length; cbn [length]; lia). cbn [bind].
+      rewrite msg_S_ref by (cbn [b_refs]; lia).
+      eexists. split; [reflexivity|]. unfold msg_room. cbn [b_bits b_refs].
+      rewrite !app_length. cbn [length].
+      split; [lia|]. split; [lia|]. split; [|left; lia].
+      apply Forall_app. split; [exact Hd|]. constructor; [|constructor].
+      pose proof (msg_depth_intro ty_ordinary sb sr 1021%N Hsd). lia.
+  - rewrite msg_S_bit by lia. eexists. split; [reflexivity|]. unfold msg_room. cbn [b_bits b_refs].
+    rewrite app_length. cbn [length]. split; [lia|]. split; [lia|]. split; [exact Hd|left; lia].
+Qed.
+
+Lemma msg_body_part_ok b3 body : msg_room b3 body -> cell_ok body = true -> (s_depth body < 1022)%N ->
+  exists bX, msg_body_part b3 body = Ok bX /\ Forall (fun r => (s_depth r <= 1022)%N) (b_refs bX).
+Proof.
+  intros (Hb & Hr & Hd & Hor) Hok Hdepth. unfold msg_body_part.
+  destruct body as [ty bb br]. unfold cell_ok in Hok.
+  assert (Hbr : Forall (fun r => (s_depth r <= 1020)%N) br).
+  { apply (msg_depth_elim ty bb br 1020%N). lia. }
+  destruct ((cbits (Cell ty bb br) <=? avail_bits b3 - 1) && (crefs (Cell ty bb br) <=? avail_refs b3)) eqn:E.
+  - unfold avail_bits, avail_refs, cbits, crefs in E.
+    rewrite msg_S_bit by lia. cbn [bind].
+    rewrite msg_S_cell by (cbn [b_bits b_refs]; rewrite ?app_length; cbn [length]; lia).
+    eexists. split; [reflexivity|]. cbn [b_refs]. apply Forall_app. split; [exact Hd|].
+    eapply msg_forall_le_weaken; [|exact Hbr]. lia.
+  - destruct Hor as [Hor|Hor]; [|congruence].
+    rewrite msg_S_bit by lia. cbn [bind]. rewrite msg_S_ref by (cbn [b_refs]; lia).
+    eexists. split; [reflexivity|]. cbn [b_refs]. apply Forall_app. split; [exact Hd|].
+    constructor; [lia|constructor].
+Qed.
+
+Lemma message_never_overflows : forall info init body ic,
+  ser_info info = Ok ic -> cbits ic <= 1020 ->
+  match init with Some si => init_ok si = true /\ opt_depth_ok (si_code si) = true /\
+                             opt_depth_ok (si_data si) = true /\ opt_depth_ok (si_library si) = true
+                | None => True end ->
+  cell_ok body = true -> (s_depth body < 1022)%N ->
+  exists c, ser_message info init body = Ok c.
+Proof.
+  intros info init body ic Hic Hbits Hinit Hbody Hdepth.
+  destruct (msg_info_refs _ _ Hic) as (ib & ir & -> & Hir & Hd). cbn [cbits] in Hbits.
+  assert (Hird : Forall (fun r => (s_depth r <= 1022)%N) ir).
+  { apply (msg_depth_elim ty_ordinary ib ir 1022%N). lia. }
+  rewrite msg_ser_message_eq, Hic. cbn [bind].
+  rewrite msg_S_cell by (cbn [b_empty b_bits b_refs length]; lia). cbn [bind b_empty b_bits b_refs app].
+  destruct (msg_init_part_ok (mkB ib ir) init body) as (b3 & -> & Hroom);
+    [cbn [b_bits]; lia|cbn [b_refs]; lia|exact Hird|exact Hinit|].
+  cbn [bind].
+  destruct (msg_body_part_ok b3 body Hroom Hbody Hdepth) as (bX & -> & HdX). cbn [bind].
+  rewrite msg_S_end by exact HdX. eauto.
+Qed.
